@@ -232,57 +232,59 @@ def r10_4(run):
     f = ix.func(CT + ".set_fixed_node_entries")
     run.analysed(f)
     w = run.where(f, f.node)
-    expect = {"p": ("PINIT", "NODE_TYPE", "EXT_GRID_OCCURENCE", "P", ["p", "pt"]),
-              "t": ("TINIT", "NODE_TYPE_T", "EXT_GRID_OCCURENCE_T", "T", ["t", "pt"])}
-    for mode, exp in expect.items():
-        found = None
-        for n in ast.walk(f.node):
-            if isinstance(n, ast.If) and isinstance(n.test, ast.Compare) and U(n.test.left) == "mode" \
-                    and const_str(n.test.comparators[0]) == mode:
-                for s in n.body:
-                    if isinstance(s, ast.Assign) and isinstance(s.value, ast.Tuple) and isinstance(s.targets[0], ast.Tuple):
-                        names = [U(t) for t in s.targets[0].elts]
-                        vals = s.value.elts
-                        found = dict(zip(names, vals))
-        ok = found is not None
-        if ok:
-            got = (U(found.get("val_col")), U(found.get("type_col")), U(found.get("count_col")), U(found.get("typ")))
-            vt = ix.eval_const(f.module, found["valid_types"]) if "valid_types" in found else None
-            ok = got == exp[:4] and sorted(vt or []) == sorted(exp[4])
-        run.ob("set_fixed_node_entries|mode-%s-columns" % mode, ok,
-               "mode %r fixes column %s, sets %s to %s, counts in %s and accepts types %s" % (mode, exp[0], exp[1], exp[3], exp[2], exp[4]), w)
-    # running mean
-    from .c02 import _eval_expr
-    upd = [n for n in own_walk(f.node) if isinstance(n, ast.Assign) and isinstance(n.targets[0], ast.Subscript)
-           and U(n.targets[0]).replace(" ", "") == "node_pit[index,val_col]"]
-    ok = len(upd) == 1
-    run.ob("set_fixed_node_entries|single-value-update", ok, "one store of the fixed value", w)
-    if ok:
-        got = _eval_expr(ix, f, upd[0].value)
-        old = Poly.sym("col?")
-        # build expected with the same free symbols the evaluator produced
-        ki = KInterp(ix, {}, phys.handlers(), free_syms=True)
-        st = {"fi": f, "env": {}, "G": BExpr.true(), "loopvars": set(), "kernel": None, "mask": None, "returned": False}
-        oldv = ki.eval(ast.parse("node_pit[index, val_col]", mode="eval").body, st)
-        cnt = ki.eval(ast.parse("node_pit[index, count_col]", mode="eval").body, st)
-        want = (oldv * cnt + g(Poly.sym("val_sum"))) / (cnt + g(Poly.sym("number")))
-        check_equal(run, "set_fixed_node_entries|running-mean", got, want,
-                    "new fixed value = (old*count + sum of new values)/(count + number of new values)", w)
-    cnt_upd = [n for n in own_walk(f.node) if isinstance(n, ast.AugAssign) and isinstance(n.op, ast.Add)
-               and U(n.target).replace(" ", "") == "node_pit[index,count_col]" and U(n.value) == "number"]
-    typ_upd = [n for n in own_walk(f.node) if isinstance(n, ast.Assign) and U(n.targets[0]).replace(" ", "") == "node_pit[index,type_col]"
-               and U(n.value) == "typ"]
-    order_ok = bool(upd and cnt_upd) and upd[0].lineno < cnt_upd[0].lineno
-    run.ob("set_fixed_node_entries|counter-after-mean", bool(cnt_upd) and order_ok,
-           "the occurrence counter is increased by the number of new values after the mean was formed", w)
-    run.ob("set_fixed_node_entries|type-set", bool(typ_upd), "the node type column is set to the fixed type", w)
-    # values of rows with a non-matching type are excluded before summing
-    sg = [c for c in calls(f.node, "_sum_by_group")]
-    ok = len(sg) == 1 and all("[mask]" in U(a) for a in sg[0].args[1:])
-    m_asg = [n for n in own_walk(f.node) if isinstance(n, ast.Assign) and U(n.targets[0]) == "mask"]
-    ok = ok and len(m_asg) == 1 and U(m_asg[0].value).replace(" ", "") == "np.isin(types,valid_types)"
-    run.ob("set_fixed_node_entries|type-filter", ok,
-           "only rows whose type is in valid_types enter the grouped sum (junctions, values and counts use one mask)", w)
+    from ..arrnf import ANF, C, base_of, contains, expect as texpect, key as tkey, match, show as tshow, walk
+    ps = f.params()
+    if len(ps) != 7:
+        raise AnalysisError("set_fixed_node_entries no longer has 7 parameters")
+    alias = dict(zip(ps, ("net", "node_pit", "junctions", "types", "values", "node_comp", "mode")))
+    table = {"p": ("PINIT", "NODE_TYPE", "EXT_GRID_OCCURENCE", "P", {"p", "pt"}),
+             "t": ("TINIT", "NODE_TYPE_T", "EXT_GRID_OCCURENCE_T", "T", {"t", "pt"})}
+    sbg = None
+    for mode, (vcol, tcol, ccol, typ, valid) in table.items():
+        r = ANF(ix, f, consts={ps[6]: mode}, param_alias=alias).run()
+        K = lambda nm: ("k", "idx_node." + nm)
+        st = [s_ for s_ in r.stores() if tkey(base_of(s_.base)) == tkey(("n", "node_pit")) and len(s_.index) == 2]
+        by = {}
+        for s_ in st:
+            by.setdefault(s_.index[1], []).append(s_)
+        ok = set(by) == {K(vcol), K(tcol), K(ccol)} and all(len(v) == 1 for v in by.values())
+        run.ob("set_fixed_node_entries|mode-%s-columns" % mode, ok and by[K(tcol)][0].value == K(typ),
+               "mode %r fixes column %s, sets %s to %s and counts in %s" % (mode, vcol, tcol, typ, ccol), w,
+               detail=str(sorted(tshow(k_) for k_ in by)))
+        if not ok:
+            continue
+        sv, sc, stp = by[K(vcol)][0], by[K(ccol)][0], by[K(tcol)][0]
+        G = [c for c in r.calls() if c.fn[0] == "f" and c.fn[1].endswith("._sum_by_group")]
+        if len(G) != 1:
+            raise AnalysisError("set_fixed_node_entries: expected one _sum_by_group call")
+        g_ = G[0].term
+        I = sv.index[0]
+        run.ob("set_fixed_node_entries|%s|rows-of-the-grouped-junctions" % mode,
+               I[0] == "idx" and I[2] == (("proj", g_, 0),) and tkey(sc.index[0]) == tkey(I) and tkey(stp.index[0]) == tkey(I),
+               "value, counter and type are written at the pit rows of the grouped junctions (index lookup of the group keys)", w)
+        env = {"I": I, "S": ("proj", g_, 1), "N": ("proj", g_, 2)}
+        want = texpect(ix, f, "(node_pit[I, %s] * node_pit[I, %s] + S) / (N + node_pit[I, %s])" % (vcol, ccol, ccol), env=env)
+        run.ob("set_fixed_node_entries|%s|running-mean" % mode, tkey(sv.value) == tkey(want),
+               "new fixed value = (old*count + sum of new values)/(count + number of new values)", w, detail=tshow(sv.value)[:200])
+        wantc = texpect(ix, f, "node_pit[I, %s] + N" % ccol, env=env)
+        run.ob("set_fixed_node_entries|%s|counter-after-mean" % mode, tkey(sc.value) == tkey(wantc) and sc.seq > sv.seq,
+               "the occurrence counter is increased by the number of new values after the mean was formed", w)
+        # values of rows with a non-matching type are excluded before summing: one mask for keys, values and counts
+        a_ = G[0].args
+        mk = None
+        if len(a_) == 4:
+            m1 = match(("idx", ("n", "junctions"), (("?", "m"),)), a_[1])
+            m2 = match(("idx", ("n", "values"), (("?", "m"),)), a_[2])
+            if m1 and m2 and tkey(m1["m"]) == tkey(m2["m"]) and contains(a_[3], m1["m"]):
+                mk = m1["m"]
+        okm = mk is not None and mk[0] == "call" and mk[1] == ("x", "numpy.isin") and mk[2][0] == ("n", "types") \
+            and mk[2][1][0] in ("list", "tuple", "set") and {x[1] for x in mk[2][1][1]} == valid
+        run.ob("set_fixed_node_entries|%s|type-filter" % mode, okm,
+               "only rows whose type is in %s enter the grouped sum (junctions, values and counts use one mask)" % sorted(valid), w,
+               detail=tshow(mk)[:100] if mk else None)
+        rets = sorted(r.returns(), key=lambda e: e.seq)
+        run.ob("set_fixed_node_entries|%s|returns-rows" % mode, bool(rets) and tkey(rets[-1].value) == tkey(I),
+               "the function returns the pit rows it fixed", w)
     # ---- callers
     for cname, mode_expect in (("ExtGrid", {"p": "p_bar", "t": "t_k"}), ("CirculationPump", {"p": "p_flow_bar"})):
         ci = [c for c in ix.all_classes() if c.name == cname][0]
@@ -309,9 +311,14 @@ def r10_4(run):
     cp = [c for c in ix.all_classes() if c.name == "CirculationPump"][0]
     m = cp.methods["create_pit_branch_entries"]
     run.analysed(m)
-    src = [U(n).replace(" ", "") for n in own_walk(m.node) if isinstance(n, ast.Assign)]
-    ok = any(s.startswith("circ_pump_pit[mask_t,TOUTINIT]=") and "t_flow_k" in s for s in src) \
-        and any(s.startswith("mask_t=np.isin(types,") and "'pt'" in s and "'t'" in s for s in src)
+    rcp = ANF(ix, m).run()
+    ok = False
+    for s_ in rcp.stores():
+        if len(s_.index) == 2 and s_.index[1] == ("k", "idx_branch.TOUTINIT") and any(x[0] == "attr" and x[2] == "t_flow_k" for x in walk(s_.value)):
+            sel = s_.index[0]
+            ok = sel[0] == "call" and sel[1] == ("x", "numpy.isin") and sel[2][1][0] in ("list", "tuple", "set") \
+                and {x[1] for x in sel[2][1][1]} == {"pt", "t"} and any(x[0] == "attr" and x[2] == "type" for x in walk(sel[2][0])) \
+                and s_.value[0] == "idx" and tkey(s_.value[2][0]) == tkey(sel)
     run.ob("CirculationPump|outlet-temperature-imposed", ok,
            "pumps of type t/pt write TOUTINIT = t_flow_k", run.where(m, m.node))
     for sub in ("CirculationPumpMass", "CirculationPumpPressure"):
@@ -331,20 +338,25 @@ def r10_5(run):
     # ---- the switch flag
     st = ix.func(P + ".solve_temperature")
     run.analysed(st)
-    sw = [n for n in own_walk(st.node) if isinstance(n, ast.Assign) and U(n.targets[0]).replace(" ", "") == "branch_pit[:,FROM_NODE_T_SWITCHED]"]
+    from ..arrnf import ANF, FULL, base_of, key as tkey, match, show as tshow
+    ra = ANF(ix, st).run()
+    FLAG, MD = ("k", "idx_branch.FROM_NODE_T_SWITCHED"), ("k", "idx_branch.MDOTINIT")
+    sw = [s_ for s_ in ra.stores() if len(s_.index) == 2 and s_.index[0] == FULL and s_.index[1] == FLAG]
     ok = False
-    if len(sw) == 1 and isinstance(sw[0].value, ast.Compare) and isinstance(sw[0].value.ops[0], ast.Lt):
-        c = sw[0].value
-        lhs = U(c.left).replace(" ", "")
-        try:
-            thr = ix.eval_const(st.module, c.comparators[0])
-        except AnalysisError:
-            thr = None
-        ok = lhs == "branch_pit[:,MDOTINIT]" and thr is not None and -1e-9 <= thr <= 0
+    if len(sw) == 1:
+        v = sw[0].value
+        bp = base_of(sw[0].base)
+        m = match(("cmp", "<", ("idx", ("?", "b"), (FULL, MD)), ("?", "thr")), v)
+        if m is None:
+            m2 = match(("cmp", ">", ("?", "thr"), ("idx", ("?", "b"), (FULL, MD))), v)
+            m = m2
+        ok = m is not None and tkey(m["b"]) == tkey(bp) and m["thr"][0] == "c" and isinstance(m["thr"][1], (int, float)) and -1e-9 <= m["thr"][1] <= 0 \
+            and not sw[0].cond and not sw[0].loops
     run.ob("switch-flag", ok, "FROM_NODE_T_SWITCHED = MDOTINIT < -eps with a small eps >= 0, set before the derivative calculation",
-           run.where(st, st.node))
-    first_calc = [c.lineno for c in calls(st.node) if callee_name(c) in ("calculate_derivatives_thermal", "adaption_before_derivatives_thermal")]
-    run.ob("switch-flag-before-use", bool(sw) and bool(first_calc) and sw[0].lineno < min(first_calc),
+           run.where(st, st.node), detail=tshow(sw[0].value)[:120] if sw else None)
+    users_ = [c for c in ra.calls() if (c.fn[0] == "f" and c.fn[1].endswith(".calculate_derivatives_thermal"))
+              or (c.fn[0] == "attr" and c.fn[2].startswith("adaption_") and c.fn[2].endswith("_thermal"))]
+    run.ob("switch-flag-before-use", bool(sw) and bool(users_) and sw[0].seq < min(c.seq for c in users_),
            "the switch flag is set before any thermal hook or kernel runs", run.where(st, st.node))
     # ---- corrected node formulas by constant folding
     FROM = ix.const("pandapipes.idx_branch", "FROM_NODE")
